@@ -331,7 +331,11 @@ def extract():
         if isinstance(node, (ast.Assign, ast.AnnAssign)):
             tgt = node.targets[0] if isinstance(node, ast.Assign) else node.target
             if isinstance(tgt, ast.Name) and tgt.id == "info_labels_to_drop":
-                clean_plain = _eval(node.value, sc, src, rel)
+                val = node.value
+                if (isinstance(val, ast.Call) and isinstance(val.func, ast.Name) and val.func.id == "list"
+                        and len(val.args) == 1 and not val.keywords):
+                    val = val.args[0]          # list(CONSTANT): a copy of the constant list
+                clean_plain = _eval(val, sc, src, rel)
         if isinstance(node, ast.For):
             try:
                 v = _eval(node.iter, sc, src, rel)
